@@ -9,5 +9,5 @@ func init() {
 	coin := WorldRun{World: "coin", Quick: b(2, 2, 2), Thorough: b(3, 2, 3), OneEnv: true}
 	// poolfee: limits calibrated to the outcome with / without the fee conversion through the traded pool
 	regExplore("C15", []WorldRun{pool, coin, wrPoolFee}, one(monitors.Slippage{}))
-	regExplore("C13X", []WorldRun{pool, wrPoolFee}, one(monitors.PoolsNeverLose{}))
+	regExplore("C13X", []WorldRun{pool, wrPoolFee}, one(monitors.Committed(monitors.PoolsNeverLose{}, "pool/")))
 }
